@@ -4,6 +4,7 @@ import logging
 import os
 import shelve
 
+from ... import ir
 from ...utils.codepage import load_obj, MemoryPage
 from ...irutils import verify_module
 from .. import wasm_to_ir
@@ -99,6 +100,17 @@ class NativeModuleInstance(ModuleInstance):
     def invoke(self, name, *args):
         f = getattr(self._code_module, name)
         f(*args)
+
+    # A table element is a native pointer. The annotation gives the type of
+    # the callback parameter: a plain int is a 32 bit C int, which cuts the
+    # pointer in half. So declare the element as 64 bit value.
+    def table_grow(self, table_idx: int, val: ir.i64, size: int) -> int:
+        val = val & 0xFFFF_FFFF_FFFF_FFFF
+        return super().table_grow(table_idx, val, size)
+
+    def table_fill(self, table_idx: int, i: int, val: ir.i64, n: int) -> None:
+        val = val & 0xFFFF_FFFF_FFFF_FFFF
+        super().table_fill(table_idx, i, val, n)
 
     def memory_create(self, min_size, max_size):
         assert len(self._memories) == 0
